@@ -192,3 +192,21 @@ func CallArg(repo, dir, fn, callee string, keyArg int, keyFrag string, arg int, 
 	}
 	return f
 }
+
+// DockerEnv reads `ENV NAME=<int>` from a Dockerfile (shipped defaults that are not Go constants).
+func DockerEnv(repo, file, name, lean string) Fact {
+	f := Fact{Name: lean, Where: file + ":ENV " + name}
+	b, err := os.ReadFile(filepath.Join(repo, file))
+	if err != nil {
+		return f
+	}
+	for _, l := range strings.Split(string(b), "\n") {
+		w := strings.Fields(l)
+		if len(w) == 2 && w[0] == "ENV" && strings.HasPrefix(w[1], name+"=") {
+			if v, err := strconv.ParseInt(strings.TrimPrefix(w[1], name+"="), 10, 64); err == nil {
+				f.Value, f.Found = v, true
+			}
+		}
+	}
+	return f
+}
